@@ -56,6 +56,16 @@ CHECKS = {
         ref="§6 C10",
         note="Trusts kernel+VM, hand model of NewWordList with explicit iteration-order parameters (tied by the wordlist family: kept set read out through one-word passwords, several constructions per input). Caller-slice immutability: by the model's immutability, the translator's effect summary and the before/after comparison. No axioms.",
         technique="Coq proof (invariant over deletion-while-ranging, for all visiting orders) + differential correspondence + specification oracle with the real strings.Title graph"),
+    "C09": dict(
+        text="Theorems about the scripted-reader semantics every generator runs on: raw words are the complete 4-byte groups of the delivered bytes, independent of chunking (hence outcome and byte count are chunking-invariant for every generator); a read failing with 0-3 bytes delivered ends the word stream and nothing after it is used; an error arriving with a completed read is dropped (io.ReadFull); a starved run is the PRNG panic and a password only ever comes from complete words preceding the first failing read. 'Only input is the source' holds by construction of the gen monad and is tied to the code by the import obligation regenerated from the source and by determinism runs.",
+        ref="§6 C09",
+        note="Trusts kernel+VM, the model of crypto/rand.Read = io.ReadFull(Reader, 4 bytes) under go1.23.5 (tied by the faults family: 12 chunkings and a fault at every read position with 0-3 bytes, both generators), the translator's import list. That crypto/rand.Reader is the OS CSPRNG is Go's contract. No axioms.",
+        technique="Coq proof (structural recursion over the read script) + differential correspondence + fault injection at every read position"),
+    "C15": dict(
+        text="Theorems over the API state machine (recipes incl. the unexported cache fields; caller-side field updates; Generate/Entropy/Alphabet/SuccessProbability with per-call tapes): calls never change the state; for every operation sequence over any number of recipes the result of each call is the result on the current public fields only (history independence, by induction over the sequence); replay invariance; methods are functions of the public fields although they read the cache; stale cache contents are irrelevant.",
+        ref="§6 C15",
+        note="Trusts kernel+VM, the model's value-receiver semantics (why the code has it — by-value receivers and no shared stores — is read from the source by the translator, see C14), tied by the history correspondence family with snapshots and replay invariance. No axioms.",
+        technique="Coq proof (invariant + induction over fold of operations) + differential correspondence on operation histories + snapshot/replay oracle"),
 }
 PENDING = {}
 
